@@ -44,7 +44,8 @@ Explain(kind, r) ==
   \* that is an unrolling of a recursive named type ([number, ...B[]] for B = [number, ...B[]]) gets another digest than B
   \* although it is the same type.  describe() inlines aliases that are referenced once; when that makes the outer type
   \* structurally equal to the body of the named type, the compiler substitutes the reference and the digest changes while
-  \* the validator stays the same.  r.recursive: the program has a recursive declaration (syntactic projection).
+  \* the validator stays the same.  r.recursive: the program has a recursive declaration whose body mentions a named type that is
+  \* not recursive itself (syntactic projection).
   \* Known deviation "fractionalLiteralTruncated" (see BeffSem): the literal 3.14159 is compiled to 3.141589999, which describe()
   \* prints and the next compilation truncates again (3.141589998): the generations drift.
   ELSE IF kind \in {"described-validator-differs", "described-hash256-differs", "describe-not-a-fixpoint"} /\ r.inexactlit
